@@ -122,6 +122,15 @@ impl GenerationPass for AvailableValuePass {
         while changed {
             changed = false;
             for node in cfg.iter() {
+                // A node whose predecessors have all not been visited yet has
+                // nothing to take the AND of. It waits for a later sweep:
+                // giving it the empty map would claim "nothing is known" for
+                // a node whose predecessors are merely later in the source,
+                // and such claims can chase each other around a cycle forever.
+                if !node.prevs().is_empty() && !node.prevs().iter().any(|x| visited.contains(x)) {
+                    continue;
+                }
+
                 // in[n] = AND out[p] for all p in prev[n]
                 let in_reg_n = node
                     .prevs()
